@@ -68,8 +68,9 @@ Fixpoint cstream (W : N) (evict : bool) (flt : entry -> verdict)
                 else if seq peeked <? W then
                   if is_strong_tomb head && evict then
                     let '(o, d) := cstream W evict flt (Drain (ukey head)) rest in (o, lg ++ d)
-                  else if is_value peeked && is_weak_tomb head then
-                    (* fix 'weak tombstone cancels exactly one value': only the pair goes *)
+                  else if negb (is_tomb peeked) && is_weak_tomb head then
+                    (* a weak tombstone cancels exactly the one value (inline or separated)
+                       directly below it: only the pair goes *)
                     let '(o, d) := cstream W evict flt DropNext rest in (o, lg ++ d)
                   else
                     let '(o, d) := cstream W evict flt (Drain (ukey head)) rest in
